@@ -37,6 +37,8 @@ Shapes ==
     star4    |-> [vars |-> V(4), ds |-> D2(4), scopes |-> << <<"v0","v1">>, <<"v0","v2">>, <<"v0","v3">> >>],
     cycle4   |-> [vars |-> V(4), ds |-> D2(4), scopes |-> << <<"v0","v1">>, <<"v1","v2">>, <<"v2","v3">>, <<"v0","v3">> >>],
     tritail  |-> [vars |-> V(4), ds |-> D2(4), scopes |-> << <<"v0","v1">>, <<"v1","v2">>, <<"v0","v2">>, <<"v2","v3">> >>],
+    tritails |-> [vars |-> V(6), ds |-> D2(6), scopes |-> << <<"v0","v1">>, <<"v1","v2">>, <<"v0","v2">>, <<"v0","v3">>, <<"v1","v4">>, <<"v5","v2">> >>],
+    kite     |-> [vars |-> V(5), ds |-> D2(5), scopes |-> << <<"v0","v1">>, <<"v0","v2">>, <<"v1","v2">>, <<"v1","v3">>, <<"v3","v2">>, <<"v3","v4">> >>],
     path5    |-> [vars |-> V(5), ds |-> D2(5), scopes |-> << <<"v0","v1">>, <<"v1","v2">>, <<"v2","v3">>, <<"v3","v4">> >>],
     tree5    |-> [vars |-> V(5), ds |-> <<2, 2, 3, 2, 2>>, scopes |-> << <<"v0","v1">>, <<"v0","v2">>, <<"v2","v3">>, <<"v2","v4">> >>],
     tern5    |-> [vars |-> V(5), ds |-> D2(5), scopes |-> << <<"v0","v1","v2">>, <<"v2","v3">>, <<"v3","v4">> >>] ]
